@@ -3162,7 +3162,7 @@ def formrbe3(uset, GRID_dep, DOF_dep, Ind_List, UM_List=None):
     # find m-set dof that belong to current dependent set:
     dpv_m = locate.mat_intersect(ddof, mdof, 2)[0]
     # this works when the m-set is a subset of the independent set:
-    if not dpv_m.any():
+    if dpv_m.size == 0:
         mpv = mkdofpv(uset.iloc[ipv], "p", mdof)[0]
         rbe3_um = rbe3[:, mpv]
         notmpv = locate.flippv(mpv, len(ipv))
@@ -3177,7 +3177,7 @@ def formrbe3(uset, GRID_dep, DOF_dep, Ind_List, UM_List=None):
     # current independent set:
     ipv_m = locate.mat_intersect(idof, mdof, 2)[0]
 
-    if not np.any(ipv_m):
+    if ipv_m.size == 0:
         # already done, except reordering:
         rbe3 = rbe3[dpv_m]
         # rearrange columns to uset order:
